@@ -17,7 +17,7 @@ ASSUMPTIONS = rp.ASSUMPTIONS + [
     "wall-clock: the step bound is what is proved; seconds are measured per case"]
 TRUSTED = rp.TRUSTED
 RULE = ("checksum-valid frames of every message id x every payload length 0..definition+2 (and 64,100,257,300,600) x fills "
-        "{00,ff,random,small} x msgmode{0,1,2,3} x validate x parsebitfield, plus arbitrary byte strings: PARSE "
+        "{00,ff,random,small} x msgmode{0,1,2,3} x validate x parsebitfield, the fields str() decorates (every class byte x a spread of id bytes in ACK-ACK/ACK-NAK/CFG-MSG, every gnssId, boundary iTOWs), plus arbitrary byte strings: PARSE "
         "correspondence + search on the implementation: parse returns a message or raises UBXParseError/UBXMessageError/"
         "UBXTypeError; every returned message can be inspected (str, repr, identity, length, payload, msgmode, serialize) "
         "without raising; per-case time limit; READ of garbage and frame streams x quitonerror{0,1,2}: iteration ends, "
@@ -75,6 +75,35 @@ def run(ctx):
                 for val in (0, 1):
                     cases.append((f, mode, 1, val))
                     cmds.append("PARSE %d %d 1 %s" % (mode, val, f.hex()))
+    # fields that str() decorates (message class / id lookups for ACK-* and CFG-MSG, GNSS names, iTOW as a time of
+    # day): every class byte x a spread of id bytes, every gnssId, boundary iTOWs - in the definition's own mode
+    ivals = [0, 1, 2, 3, 5, 6, 0x20, 0x21, 0x31, 0x40, 0x60, 0x80, 0xfe, 0xff] + [rng.randrange(256) for _ in range(2 if ctx.quick() else 40)]
+    for c in range(256):
+        for i in ivals:
+            for k, mode, tails in ((b"\x05\x01", 0, (b"",)), (b"\x05\x00", 0, (b"",)),
+                                   (b"\x06\x01", 1, (b"\x01", bytes(6))), (b"\x06\x01", 2, (b"",)), (b"\x06\x01", 0, (b"\x01", bytes(6)))):
+                for t in tails:
+                    f = gen.ubx_frame(k[0], k[1], bytes([c, i]) + t)
+                    cases.append((f, mode, 1, 1))
+                    cmds.append("PARSE %d 1 1 %s" % (mode, f.hex()))
+    for mode, name, d, key in msggen.all_defs():
+        lt = msggen.leaf_types(d)
+        special = [a for a in lt if a.startswith("gnssId") or a == "iTOW"]
+        if not special:
+            continue
+        for a in special:
+            t = lt[a][0]
+            if t[0] not in "UEILX":
+                continue
+            vals = list(range(256)) if t[1:4] == "001" else [0, 1, 999, 604799999, 604800000, 2**31 - 1, 2**31, 2**32 - 1]
+            if ctx.quick() and len(vals) > 40:
+                vals = vals[:16] + rng.sample(vals[16:], 24)
+            for v in vals:
+                g = msggen.Gen(rng, d, mode, name, key, 1, "zero")
+                g.overrides[a] = v
+                f = msggen.frame(key, g.payload())
+                cases.append((f, mode, 1, 1))
+                cmds.append("PARSE %d 1 1 %s" % (mode, f.hex()))
     for n, f in enumerate(frames):
         mode, bf, val = n % 4, (n // 4) % 2, 1 if n % 5 else 0
         cases.append((f, mode, bf, val))
